@@ -45,7 +45,7 @@ def lens_for(rnd, maxfrag, frag):
 
 def gen_scenario(rnd, i, maxfrag, frag, procs=True):
     n = rnd.choice([1, 2, 3, 3, 4, 5, 8])
-    kinds = ["thread", "clone", "proc"] if procs else ["thread", "clone"]
+    kinds = ["thread", "clone", "proc", "fork"] if procs else ["thread", "clone"]
     senders = [{"kind": rnd.choice(kinds), "lens": lens_for(rnd, maxfrag, frag)} for _ in range(n)]
     receiver = RECEIVERS[i % len(RECEIVERS)]
     if receiver == "set-late" and i % 2 == 0:
